@@ -1441,19 +1441,13 @@ namespace awkward {
       for (auto content : contents_) {
         contents.push_back(content.get()->rpad(target, posaxis, depth));
       }
-      if (contents.empty()) {
-        return std::make_shared<RecordArray>(identities_,
-                                             parameters_,
-                                             contents,
-                                             recordlookup_,
-                                             length_);
-      }
-      else {
-        return std::make_shared<RecordArray>(identities_,
-                                             parameters_,
-                                             contents,
-                                             recordlookup_);
-      }
+      // padding below the records does not change how many records there are
+      // (a field may be longer than the record array it belongs to)
+      return std::make_shared<RecordArray>(identities_,
+                                           parameters_,
+                                           contents,
+                                           recordlookup_,
+                                           length_);
     }
   }
 
@@ -1471,19 +1465,13 @@ namespace awkward {
         contents.push_back(
           content.get()->rpad_and_clip(target, posaxis, depth));
       }
-      if (contents.empty()) {
-        return std::make_shared<RecordArray>(identities_,
-                                             parameters_,
-                                             contents,
-                                             recordlookup_,
-                                             length_);
-      }
-      else {
-        return std::make_shared<RecordArray>(identities_,
-                                             parameters_,
-                                             contents,
-                                             recordlookup_);
-      }
+      // padding below the records does not change how many records there are
+      // (a field may be longer than the record array it belongs to)
+      return std::make_shared<RecordArray>(identities_,
+                                           parameters_,
+                                           contents,
+                                           recordlookup_,
+                                           length_);
     }
   }
 
